@@ -50,6 +50,15 @@ def inputs(seed):
         p = programs.Gen(r).program()
         toks = mutate.random_edits(programs.all_tokens(p), r, 2, mutate.FULL_VOCAB)
         ins.append(({"main": " ".join(toks)}, "main"))
+    # several equal-priority macros that tie on start and length (the same pattern defined more than once, overloads):
+    # which one is taken is not prescribed, but it has to be the same one every time
+    filler = " ;\n".join("v%d := %d" % (i, i) for i in range(40))
+    ins.append(({"main": "DEFINE pick AS a1 := 11 END DEFINE\nDEFINE pick AS a1 := 22 END DEFINE\nDEFINE pick AS a1 := 33 END DEFINE\n"
+                         "DEFINE pick AS a1 := 44 END DEFINE\n" + filler + " ;\npick ;\npick"}, "main"))
+    ins.append(({"main": "DEFINE <ID> ~ <V> AS $0 := $1 END DEFINE\nDEFINE <ID> ~ <ID> AS $0 := $1 + 1 END DEFINE\nDEFINE <ID> ~ <INT> AS $0 := 7 END DEFINE\n"
+                         + filler + " ;\nx ~ v3 ;\ny ~ 5 ;\nz ~ x"}, "main"))
+    ins.append(({"main": 'include "m1"\ninclude "m2"\n' + filler + " ;\nq := two 1 ;\nr := two q", "m1": "DEFINE PRIO 4 two <V> AS RUN dbl WITH $0 END END DEFINE\n"
+                 "PROGRAM dbl IN a OUT a DO\nb := a ;\nLOOP b DO\na := a + 1\nEND\nEND", "m2": "DEFINE PRIO 4 two <V> AS $0 END DEFINE\nDEFINE PRIO 4 two <INT> AS 9 END DEFINE"}, "main"))
     # inputs that drive library calls into their error paths (strtol overflow, range errors): sticky per-thread state
     # such as errno must not leak into later compilations
     ins.append(({"main": "x := 100000000000000000000"}, "main"))
